@@ -737,6 +737,12 @@ class Interp:
                 return ListV(v.items[lo.v:hi.v:st.v], v.tup)
             if isinstance(v, BA) and st.v is None:
                 return v.slice(lo.v, hi.v)
+        if getattr(self, 'ROPES', False) and isinstance(v, (Sym, Term)) and all(isinstance(x, K) for x in (lo, hi, st)) \
+                and not (isinstance(v, Sym) and st.v is None):
+            from .rope import Rope
+            r = Rope.of(self, v)
+            if r is not None:
+                return r.abs_slice(self, lo, hi, st, n)
         if isinstance(v, Sym) and v.meta.get('ty') == 'bytes' and v.meta.get('n') is not None \
                 and all(isinstance(x, K) for x in (lo, hi)) and isinstance(st, K) and st.v is None:
             n_ = v.meta['n']
